@@ -211,6 +211,7 @@ fn c12_gen_cfg() -> GenCfg {
     cfg.assigns = (1, 9);
     cfg.comments = false; // see c11.rs: comment placement is not a definition
     cfg.classes = true;
+    cfg.components_of = true;
     cfg.real_components = true;
     cfg.echo_inner_names = true;
     cfg
@@ -598,7 +599,12 @@ fn check_imports(out: &mut Outcome, p: &SubPlan, refs: &SubRef, mi: usize, block
         // spelled (wildcard or names) follows rules of the backend that the property does not
         // state; for such clauses only the existence of the declaration is judged here — the
         // block comparison (oracle B) still sees any influence of a neighbour on it.
-        let special = imp.symbols.iter().any(|s| s.contains("{}") || s.chars().all(|c| c.is_uppercase() || c == '-' || c.is_ascii_digit()));
+        let exporter = p.set.get(&imp.from);
+        let special = imp.symbols.iter().any(|s| {
+            s.contains("{}")
+                || s.chars().all(|c| c.is_uppercase() || c == '-' || c.is_ascii_digit())
+                || exporter.is_some_and(|em| em.assigns.iter().any(|a| (&a.name == s || format!("{}{{}}", a.name) == *s) && matches!(a.kind, AKind::Class | AKind::Param)))
+        });
         if special {
             out.count("import_clauses_with_class_or_template", 1);
             continue;
